@@ -474,7 +474,7 @@ def correspondence(ctx: core.Ctx) -> None:
     time_stream(ctx)
     hashseed_case(ctx, two_bases_project(), (1, 3, 4, 6), "hashseed")   # seeds that gave both orders before 15ba16f
     rnd = ctx.rng
-    n = ctx.budget(25, 300)
+    n = ctx.budget(25, 250)
     for i in range(n):
         p = gen_project.generate(rnd)
         for f in p.features:
